@@ -1,6 +1,7 @@
 package main
 
 import (
+	"bytes"
 	"encoding/json"
 	"fmt"
 	"github.com/formancehq/stack/libs/go-libs/metadata"
@@ -172,6 +173,9 @@ func eventOracle(w *worldRun) (string, string) {
 		if err := json.Unmarshal(m.Payload, &env); err != nil {
 			return "published message is not valid JSON: " + err.Error(), "event-json"
 		}
+		if m.Live != nil && !bytes.Equal(m.Live.Payload, m.Payload) {
+			return fmt.Sprintf("the bytes of a published %s message changed after it was handed to the bus (a subscriber of a queueing bus reads them later): published %s, now %s", m.Topic, m.Payload, m.Live.Payload), "event-bytes-reused"
+		}
 		if m.Persisted > len(logs) {
 			m.Persisted = len(logs)
 		}
@@ -271,8 +275,10 @@ func eventOracle(w *worldRun) (string, string) {
 			return fmt.Sprintf("event %s published with %d entries persisted: %s (payload %s) [%s]", env.Type, m.Persisted, why, string(env.Payload), w.digest()), "event-unfaithful:" + env.Type
 		}
 	}
-	if !w.Crashed {
-		// every persisted change is published at least once (whatever its request was told)
+	if !w.Crashed && !w.Spec.GracefulClose {
+		// every persisted change is published at least once (whatever its request was told) - as long as the process lives:
+		// a crash, or a shutdown (Commander.Close) with writes in flight, ends it between persistence and publication, and
+		// nothing in this architecture (no outbox) republishes afterwards; the "faithful" half above is still judged there
 		for _, res := range w.Results {
 			if res.Spec.DryRun {
 				continue
